@@ -676,3 +676,22 @@ func FileReaddir(f *os.File, n int) ([]os.FileInfo, error) {
 	}
 	return nd.SymLen(out, count), nil
 }
+
+// OsTruncate: truncate(2) by path: every open descriptor of the file sees the new length.
+func OsTruncate(name string, size int64) error {
+	p := path.Clean(name)
+	n := FS.lookup(p)
+	if n == nil {
+		nd.Yield()
+		return pathErr("truncate", name, syscall.ENOENT)
+	}
+	if n.isDir {
+		return pathErr("truncate", name, syscall.EISDIR)
+	}
+	nd.Mutation("fs.truncate " + p)
+	for int64(len(n.data)) < size {
+		n.data = append(n.data, 0)
+	}
+	n.data = n.data[:size:size]
+	return nil
+}
